@@ -56,6 +56,9 @@ func (c *ACred) modelIn(root *big.Int) J {
 	fields := J{}
 	hs := hPoseidon()
 	for _, f := range c.Fields {
+		if f.Absent {
+			continue
+		}
 		var v *big.Int
 		switch f.Kind {
 		case "int":
@@ -174,7 +177,12 @@ func checkClaimAgainstStatement(c *ACred, o *verifiable.CoreClaimOptions, cl *co
 		}
 		want := map[string]*big.Int{}
 		for _, part := range splitSer(c.SerAttr) {
-			fv, _ := new(big.Int).SetString(in["fields"].(J)[part[1]].(string), 10)
+			fs, has := in["fields"].(J)[part[1]].(string)
+			if !has {
+				*why = append(*why, fmt.Sprintf("a claim was built although the credential does not set the field %q that the attribute assigns to %s", part[1], part[0]))
+				continue
+			}
+			fv, _ := new(big.Int).SetString(fs, 10)
 			want[part[0]] = fv // the last assignment of a slot wins
 		}
 		for name, i := range map[string]int{"slotIndexA": 2, "slotIndexB": 3, "slotValueA": 6, "slotValueB": 7} {
